@@ -853,6 +853,11 @@ func parseEnhancedCode(s string) (EnhancedCode, error) {
 
 	code := EnhancedCode{}
 	for i, part := range parts {
+		// class, subject and detail consist of digits only (RFC 3463);
+		// Atoi alone would also take a sign
+		if part == "" || strings.Trim(part, "0123456789") != "" {
+			return EnhancedCode{}, fmt.Errorf("malformed enhanced code part")
+		}
 		num, err := strconv.Atoi(part)
 		if err != nil {
 			return code, err
